@@ -4,6 +4,7 @@
 //  Distributed under the Boost Software License, Version 1.0. (See accompanying
 //  file LICENSE_1_0.txt or copy at http://www.boost.org/LICENSE_1_0.txt)
 
+#include <pika/config.hpp>
 #include <pika/threading_base/detail/global_activity_count.hpp>
 
 #include <atomic>
@@ -15,15 +16,18 @@ namespace pika::threads::detail {
     void increment_global_activity_count()
     {
         global_activity_count.fetch_add(1, std::memory_order_acquire);
+        PIKA_VERIF_POINT("gac.inc", nullptr, 0, 0);
     }
 
     void decrement_global_activity_count()
     {
+        PIKA_VERIF_POINT("gac.dec", nullptr, 0, 0);
         global_activity_count.fetch_sub(1, std::memory_order_release);
     }
 
     std::size_t get_global_activity_count()
     {
+        PIKA_VERIF_POINT("gac.read", nullptr, 0, 0);
         return global_activity_count.load(std::memory_order_acquire);
     }
 }    // namespace pika::threads::detail
